@@ -7,7 +7,7 @@ use super::report::*;
 use super::rng::Rng;
 use super::scenario::*;
 use super::sched::Policy;
-use super::worlda::{run_a, OutcomeA};
+use super::worlda::{run_a, take_panic, OutcomeA};
 use super::worldb::{run_b, BOptions, OutcomeB};
 use serde_json::json;
 
@@ -498,6 +498,37 @@ fn judge_c09_a(out: &mut OutcomeA) {
 // =================================================================================================
 
 pub fn run_property(ctx: &Ctx, run: u64) -> RunReport {
+    // The generators and oracles use the engine's own rules code (FEN, move generation, make_move).
+    // If that code panics outside an execution — on a position the corpus lists or on a move its own
+    // generator produced — the run is over, and the panic is the engine's, not the harness's.
+    let _ = take_panic();
+    match std::panic::catch_unwind(std::panic::AssertUnwindSafe(|| run_property_inner(ctx, run))) {
+        Ok(rep) => rep,
+        Err(_) => {
+            let (msg, loc) = take_panic().unwrap_or_else(|| ("<unknown panic>".into(), String::new()));
+            let mut rep = RunReport { run, ..Default::default() };
+            rep.evaluations = 1;
+            if loc.starts_with('/') && !loc.contains("/.cargo/") && !loc.contains("/rustc/") {
+                let v = Violation {
+                    property: ctx.property.clone(),
+                    class: "panic".into(),
+                    message: format!("engine rules code panicked at {loc} while the workload of run {run} was being prepared (positions played out with the engine's own move generator): {msg}"),
+                    signature: format!("panic {loc}"),
+                };
+                if class_bears_on("panic", &ctx.property) {
+                    rep.violations.push(FoundViolation { violation: v, scenario: Scenario::Gen { run }, fingerprint: format!("{:016x}", super::rng::hash_str(&format!("{msg}@{loc}"))) });
+                } else {
+                    rep.other_observations.push(format!("panic (while preparing the workload): {msg} at {loc}"));
+                }
+            } else {
+                rep.harness_errors.push(format!("harness panic while preparing/evaluating run {run}: {msg} at {loc}"));
+            }
+            rep
+        }
+    }
+}
+
+fn run_property_inner(ctx: &Ctx, run: u64) -> RunReport {
     match ctx.property.as_str() {
         "C05" => run_c05(ctx, run),
         "C04" => run_c04(ctx, run),
@@ -529,6 +560,9 @@ pub fn budget(property: &str, tier: &str, profile: &str) -> u64 {
 pub fn evaluate_scenario(ctx: &Ctx, scenario: &Scenario) -> RunReport {
     let mut rep = RunReport::default();
     match scenario {
+        Scenario::Gen { run } => {
+            return run_property(ctx, *run);
+        }
         Scenario::A(sc) => {
             let mut out = run_a(sc, false);
             judge_a(ctx, sc, &mut out, &mut rep.agg);
